@@ -5,6 +5,12 @@ D: the declarative meaning of a name in a message (WireNameOps!DecodeName, RFC 1
    oracle for compression validity.
 R: every (buffer, offset) that the specification says holds a VALID name (Gen_WireName) must be
    decoded by Name::read to exactly those labels (case-exact) and offset.
+R2: the record grammar GrammarOps.tla (41 types, boundary variants of every field, EDNS options,
+   SVCB parameters) unfolded by Gen_Grammar: a record the grammar calls well-formed in its context
+   must be accepted by Message::from_vec, Request::from_bytes, Record::read (stopping exactly
+   behind it) and RData::read, its RDATA must survive decode+encode octet for octet (types
+   without compressible names), and whatever is accepted must re-encode to a fixpoint
+   (monitor Trace_Grammar).
 T: seeded random structurally valid messages (30 RDATA types, all flags, four opcodes, plain and
    extended RCODEs, EDNS options, TSIG, shared-suffix / mixed-case / 63-octet labels, messages
    with 150-400 records crossing the 120-name and 0x3FFF limits of the compressor) are encoded;
@@ -19,6 +25,7 @@ import json
 import os
 
 import vlib
+from checks import grammar_common
 
 BINS = ["drive_wire"]
 
@@ -60,6 +67,8 @@ def run(res, tier, seed):
     if n != len(valid):
         raise vlib.ToolError("driver lost cases")
     res.traces += n
+    # ---- R2: the record grammar: well-formed records are accepted, framed exactly, preserved; accepted ones are fixpoints
+    grammar_common.run(res, "C02", tier, "c02g")
     # ---- T
     n_rand = 150000 if tier == "thorough" else 3000
     tpath = os.path.join(wd, "rt.trace.ndjson")
